@@ -27,4 +27,11 @@ CASES = [
     dict(name="separate-flag-constant", file=V, expect="R09.4", old="            separate_dirs=_separate_dirs_test(direction, angles_tol),", new="            separate_dirs=True,"),
     dict(name="meshgrid-xy", file="tools/geometric.py", expect="R09.5", old='        np.meshgrid(*pos, indexing="ij"), dtype=np.double', new='        np.meshgrid(*pos, indexing="xy"), dtype=np.double'),
     dict(name="twin-selection-order", kind="twin", file=V, old="        field = field[:, sampled_idx]\n        pos = pos[:, sampled_idx]", new="        pos = pos[:, sampled_idx]\n        field = field[:, sampled_idx]"),
+    dict(name="ang2dir-cos-index", file="tools/geometric.py", expect="R09.7", old="        vec[:, i] *= np.cos(angles[:, (i - 1)])", new="        vec[:, i] *= np.cos(angles[:, i - 2])"),
+    dict(name="ang2dir-first-component-cos", file="tools/geometric.py", expect="R09.7", old="    vec[:, 0] = np.prod(np.sin(angles), axis=1)", new="    vec[:, 0] = np.prod(np.cos(angles), axis=1)"),
+    dict(name="ang2dir-swap-in-4d", file="tools/geometric.py", expect="R09.7", old="    if dim in [2, 3]:\n        vec[:, [0, 1]] = vec[:, [1, 0]]", new="    if dim in [2, 3, 4]:\n        vec[:, [0, 1]] = vec[:, [1, 0]]"),
+    dict(name="ang2dir-loop-from-zero", file="tools/geometric.py", expect="R09.7", old="    for i in range(1, dim):\n        vec[:, i] = np.prod(np.sin(angles[:, i:]), axis=1)", new="    for i in range(2, dim):\n        vec[:, i] = np.prod(np.sin(angles[:, i:]), axis=1)", accept_undecided=True),
+    dict(name="twin-ang2dir-one-statement", kind="twin", file="tools/geometric.py",
+         old="        vec[:, i] = np.prod(np.sin(angles[:, i:]), axis=1)  # empty prod = 1\n        vec[:, i] *= np.cos(angles[:, (i - 1)])",
+         new="        vec[:, i] = np.prod(np.sin(angles[:, i:]), axis=1) * np.cos(angles[:, i - 1])"),
 ]
